@@ -6,9 +6,12 @@ cd /repo || exit 2
 if ! git -C /repo diff --quiet; then echo "repo dirty, abort"; exit 2; fi
 git -C /repo apply "$PATCH" || { echo "patch does not apply"; exit 2; }
 cd /verif
+# the evidence of the last run on the UNCHANGED tree must survive a run against a seeded change
+rm -rf /verif/work/evidence-saved; cp -r /verif/evidence /verif/work/evidence-saved
 for c in "$@"; do
   echo "=== $c with $(basename $(dirname $PATCH))"
   ./check "$c" --tier quick 2>&1 | grep -E "VIOLATION|KNOWN-FINDING|^\[$c\]" | cut -c1-220
 done
 git -C /repo checkout -- . 
+rm -rf /verif/evidence; mv /verif/work/evidence-saved /verif/evidence
 git -C /repo status --short | head -3
